@@ -12,7 +12,7 @@
    the code forgot.  The independent judgement "this edit violates a DOCUMENTED requirement" is the `inv` flag of each edit
    of the catalogue in checks/configgen.py, cross-checked against `requirements` on every run (design_notes/C19.md).
    "Every configuration" means every value of the record `config` (the keys the catalogue knows, incl. the integer options
-   that size something at start time: workers, queue-depth, the cluster refresh periods). *)
+   that size something: workers, intervals, queue-depth, the cluster refresh periods, the notifier interval). *)
 From Coq Require Import List ZArith Permutation.
 From Burrow Require Import ConfigValid ConfigValidProofs.
 Import ListNotations.
@@ -31,7 +31,8 @@ Print Assumptions C19_refuse_iff_invalid.
    panics of every Configure are recovered, and — next theorem — a configuration that every Configure accepted does not
    make any coordinator's Start panic (storage: make([]chan, workers); cluster: time.NewTicker(refresh) — both refused in
    Configure since 746d605 / 4350030; before, these panics left Start: examples C19_old_workers / C19_old_refresh below).
-   Not covered: options outside the record, and crashes AFTER start-up (intervals <= 0, notifier interval <= 0: observations). *)
+   Not covered: options outside the record.  The two crashes AFTER start-up that were known (storage intervals < 1, notifier
+   interval < 1 or beyond a time.Duration) are refusals in Configure as well since c110ef6 / 38fa1ff (C19_example_sizes). *)
 Theorem C19_start_never_panics : forall (o : order) (c : config) (a : app_state) (p : panic), start o c a <> Panicked p.
 Proof. exact start_never_panics. Qed.
 Print Assumptions C19_start_never_panics.
@@ -198,3 +199,9 @@ Example C19_old_refresh :
   start_list (canonical_order ex_bad_refresh) ex_bad_refresh (coordinators ex_bad_refresh) []
     = Panicked (PanicString ClusterRefresh 5).
 Proof. exact ex_bad_refresh_refused. Qed.
+
+Example C19_example_sizes :
+  requirements ex_bad_sizes = [(StorageIntervals, 1); (NotifierInterval, 4)] /\
+  start (canonical_order ex_bad_sizes) ex_bad_sizes used_app = Returned 1 nothing_started no_listener /\
+  configured (canonical_order ex_bad_sizes) ex_bad_sizes = [CZookeeper; CStorage].
+Proof. exact ex_bad_sizes_refused. Qed.
